@@ -1108,10 +1108,389 @@ fn run_linknet(parts: &[&str]) -> Option<String> {
 }
 // ---- end extend-c08a ----
 
+// ---- IpHeaders (extend-c08c) ----
+// Cases (same file is read by ocaml/run_c08_iph.ml.in, which prints the model's answers in the same format):
+//   b iph <hex> [mask]
+//     v=<canon|-> fs=<S> f4=<S> f6=<S> rd=<R> [w=<W> hl=<n> nh=<N> d2=<S>]
+//   v iph 4 <13 Ipv4Header fields as `v ipv4`> <auth nh:spi:seq:icv|-> <stale hex|-> <payload> <trail> <last>
+//   v iph 6 <7 Ipv6Header fields as `v ipv6`> <hop> <dst> <routing> <final dst> <frag> <auth> <payload> <trail> <last>
+//     v=<canon> w=<W> hl=<n> nh=<N> fr=<0|1> fs=<S> f4=<S> f6=<S> rd=<R>     (decoders on write(v) ++ payload ++ trail)
+//     b=<canon> et=<ether type> spl=<ok|err> bw=<W> bfs=<S> brd=<R>           (after set_next_headers(last), set_payload_len(len payload))
+// <canon> = 4|<ipv4 canon>|<nh:spi:seq:icv or -> resp. 6|<ipv6 canon>|[hop;dst;routing;final dst;frag;auth]
+// <S> = ok:<=|canon>:<ip number>,<fragmented>,<len source 0|4|6>,<payload offset>+<len> | err:len | err:content
+//       (from_slice, from_ipv4_slice, from_ipv6_slice; `=` when the canon equals the v= / b= one)
+// <R> = ok:<=|canon>:<ip number>,<cursor position> | err:io | err:len | err:content   (read over a Cursor)
+// <W> = <ok | v4:nr:51 | v6:hbh | v6:nr:<n>>:<content of the Vec afterwards>
+// <N> = ok:<n> | v4:nr:51 | v6:hbh | v6:nr:<n>
+fn iph_raw_s(h: &Ipv6RawExtHeader) -> String {
+    format!("{}:{}", h.next_header.0, hex(h.payload()))
+}
+fn iph_frag_s(h: &Ipv6FragmentHeader) -> String {
+    format!(
+        "{}:{}:{}:{}",
+        h.next_header.0,
+        h.fragment_offset.value(),
+        h.more_fragments as u8,
+        h.identification
+    )
+}
+fn iph_auth_s(h: &IpAuthHeader) -> String {
+    format!("{}:{}:{}:{}", h.next_header.0, h.spi, h.sequence_number, hex(h.raw_icv()))
+}
+fn iph_opt<T>(o: &Option<T>, f: fn(&T) -> String) -> String {
+    match o {
+        Some(x) => f(x),
+        None => "-".to_string(),
+    }
+}
+fn iph_exts6_s(e: &Ipv6Extensions) -> String {
+    format!(
+        "[{};{};{};{};{};{}]",
+        iph_opt(&e.hop_by_hop_options, iph_raw_s),
+        iph_opt(&e.destination_options, iph_raw_s),
+        match &e.routing {
+            Some(r) => iph_raw_s(&r.routing),
+            None => "-".to_string(),
+        },
+        match &e.routing {
+            Some(r) => iph_opt(&r.final_destination_options, iph_raw_s),
+            None => "-".to_string(),
+        },
+        iph_opt(&e.fragment, iph_frag_s),
+        iph_opt(&e.auth, iph_auth_s)
+    )
+}
+fn iph_canon(h: &IpHeaders) -> String {
+    match h {
+        IpHeaders::Ipv4(hd, e) => format!("4|{}|{}", ipv4_canon(hd), iph_opt(&e.auth, iph_auth_s)),
+        IpHeaders::Ipv6(hd, e) => format!("6|{}|{}", ipv6_canon(hd), iph_exts6_s(e)),
+    }
+}
+fn iph_same(reference: Option<&str>, c: String) -> String {
+    match reference {
+        Some(r) if r == c => "=".to_string(),
+        _ => c,
+    }
+}
+fn iph_ls(l: LenSource) -> &'static str {
+    match l {
+        LenSource::Slice => "0",
+        LenSource::Ipv4HeaderTotalLen => "4",
+        LenSource::Ipv6HeaderPayloadLen => "6",
+        _ => "?",
+    }
+}
+fn iph_sres(reference: Option<&str>, input: &[u8], r: Result<(IpHeaders, IpPayloadSlice<'_>), &'static str>) -> String {
+    match r {
+        Ok((h, p)) => format!(
+            "ok:{}:{},{},{},{}",
+            iph_same(reference, iph_canon(&h)),
+            p.ip_number.0,
+            p.fragmented as u8,
+            iph_ls(p.len_source),
+            off(input, p.payload)
+        ),
+        Err(k) => format!("err:{}", k),
+    }
+}
+fn iph_fs(b: &[u8]) -> Result<(IpHeaders, IpPayloadSlice<'_>), &'static str> {
+    use err::ip::HeadersSliceError as E;
+    IpHeaders::from_slice(b).map_err(|e| match e {
+        E::Len(_) => "len",
+        E::Content(_) => "content",
+    })
+}
+fn iph_f4(b: &[u8]) -> Result<(IpHeaders, IpPayloadSlice<'_>), &'static str> {
+    use err::ipv4::SliceError as E;
+    IpHeaders::from_ipv4_slice(b).map_err(|e| match e {
+        E::Len(_) => "len",
+        E::Header(_) | E::Exts(_) => "content",
+    })
+}
+fn iph_f6(b: &[u8]) -> Result<(IpHeaders, IpPayloadSlice<'_>), &'static str> {
+    use err::ipv6::SliceError as E;
+    IpHeaders::from_ipv6_slice(b).map_err(|e| match e {
+        E::Len(_) => "len",
+        E::Header(_) | E::Exts(_) => "content",
+    })
+}
+fn iph_rres(reference: Option<&str>, input: &[u8]) -> String {
+    use err::ip::HeaderReadError as E;
+    let mut c = Cursor::new(input);
+    let r = IpHeaders::read(&mut c);
+    let pos = c.position();
+    match r {
+        Ok((h, n)) => format!("ok:{}:{},{}", iph_same(reference, iph_canon(&h)), n.0, pos),
+        Err(E::Io(_)) => "err:io".to_string(),
+        Err(E::Len(_)) => "err:len".to_string(),
+        Err(E::Content(_)) => "err:content".to_string(),
+    }
+}
+fn iph_walk6(e: &err::ipv6_exts::ExtsWalkError) -> String {
+    use err::ipv6_exts::ExtsWalkError as W;
+    match e {
+        W::HopByHopNotAtStart => "v6:hbh".to_string(),
+        W::ExtNotReferenced { missing_ext } => format!("v6:nr:{}", missing_ext.0),
+    }
+}
+fn iph_walk4(e: &err::ipv4_exts::ExtsWalkError) -> String {
+    use err::ipv4_exts::ExtsWalkError as W;
+    match e {
+        W::ExtNotReferenced { missing_ext } => format!("v4:nr:{}", missing_ext.0),
+    }
+}
+fn iph_nh_s(h: &IpHeaders) -> String {
+    use err::ip_exts::ExtsWalkError as W;
+    match h.next_header() {
+        Ok(n) => format!("ok:{}", n.0),
+        Err(W::Ipv4Exts(e)) => iph_walk4(&e),
+        Err(W::Ipv6Exts(e)) => iph_walk6(&e),
+    }
+}
+fn iph_w(h: &IpHeaders) -> (Vec<u8>, String) {
+    use err::ip::HeadersWriteError as W;
+    let mut v = Vec::new();
+    let st = match h.write(&mut v) {
+        Ok(()) => "ok".to_string(),
+        Err(W::Io(_)) => "io".to_string(),
+        Err(W::Ipv4Exts(e)) => iph_walk4(&e),
+        Err(W::Ipv6Exts(e)) => iph_walk6(&e),
+    };
+    let s = format!("{}:{}", st, hex(&v));
+    (v, s)
+}
+fn iph_bytes(bs: &[u8]) -> String {
+    let fs = iph_fs(bs);
+    let reference: Option<String> = fs.as_ref().ok().map(|(h, _)| iph_canon(h));
+    let r = reference.as_deref();
+    let head = format!(
+        "v={} fs={} f4={} f6={} rd={}",
+        r.unwrap_or("-"),
+        iph_sres(r, bs, iph_fs(bs)),
+        iph_sres(r, bs, iph_f4(bs)),
+        iph_sres(r, bs, iph_f6(bs)),
+        iph_rres(r, bs)
+    );
+    match fs {
+        Err(_) => head,
+        Ok((h, _)) => {
+            let (w, ws) = iph_w(&h);
+            let hl = h.header_len();
+            let mut again = w.clone();
+            again.extend_from_slice(&bs[hl.min(bs.len())..]);
+            format!(
+                "{} w={} hl={} nh={} d2={}",
+                head,
+                ws,
+                hl,
+                iph_nh_s(&h),
+                iph_sres(r, &again, iph_fs(&again))
+            )
+        }
+    }
+}
+fn iph_value_line(h: IpHeaders, payload: &[u8], trail: &[u8], last: u8) -> String {
+    let c = iph_canon(&h);
+    let (w, ws) = iph_w(&h);
+    let mut input = w.clone();
+    input.extend_from_slice(payload);
+    input.extend_from_slice(trail);
+    let r = Some(c.as_str());
+    let part1 = format!(
+        "v={} w={} hl={} nh={} fr={} fs={} f4={} f6={} rd={}",
+        c,
+        ws,
+        h.header_len(),
+        iph_nh_s(&h),
+        h.is_fragmenting_payload() as u8,
+        iph_sres(r, &input, iph_fs(&input)),
+        iph_sres(r, &input, iph_f4(&input)),
+        iph_sres(r, &input, iph_f6(&input)),
+        iph_rres(r, &input)
+    );
+    let mut b = h.clone();
+    let et = b.set_next_headers(IpNumber(last));
+    let part2 = match b.set_payload_len(payload.len()) {
+        Err(_) => format!("b={} et={} spl=err bw=- bfs=- brd=-", iph_canon(&b), et.0),
+        Ok(()) => {
+            let cb = iph_canon(&b);
+            let (bw, bws) = iph_w(&b);
+            let mut binput = bw.clone();
+            binput.extend_from_slice(payload);
+            binput.extend_from_slice(trail);
+            let rb = Some(cb.as_str());
+            format!(
+                "b={} et={} spl=ok bw={} bfs={} brd={}",
+                cb,
+                et.0,
+                bws,
+                iph_sres(rb, &binput, iph_fs(&binput)),
+                iph_rres(rb, &binput)
+            )
+        }
+    };
+    format!("{} {}", part1, part2)
+}
+fn iph_num(s: &str, top: u64) -> Option<u64> {
+    match s.parse::<u128>() {
+        Ok(v) if v <= top as u128 => Some(v as u64),
+        _ => None,
+    }
+}
+fn iph_raw_of(t: &str) -> Option<Option<Ipv6RawExtHeader>> {
+    if t == "-" {
+        return Some(None);
+    }
+    let (nh, p) = t.split_once(':').unwrap();
+    let nh = iph_num(nh, 255)?;
+    Ipv6RawExtHeader::new_raw(IpNumber(nh as u8), &unhex(p)).ok().map(Some)
+}
+fn iph_frag_of(t: &str) -> Option<Option<Ipv6FragmentHeader>> {
+    if t == "-" {
+        return Some(None);
+    }
+    let p: Vec<&str> = t.split(':').collect();
+    let nh = iph_num(p[0], 255)?;
+    let fo = IpFragOffset::try_new(iph_num(p[1], 65535)? as u16).ok()?;
+    let id = iph_num(p[3], u32::MAX as u64)?;
+    Some(Some(Ipv6FragmentHeader::new(IpNumber(nh as u8), fo, p[2] == "1", id as u32)))
+}
+fn iph_auth_of(t: &str, stale: &str) -> Option<Option<IpAuthHeader>> {
+    if t == "-" {
+        return Some(None);
+    }
+    let p: Vec<&str> = t.split(':').collect();
+    let nh = iph_num(p[0], 255)?;
+    let spi = iph_num(p[1], u32::MAX as u64)?;
+    let seq = iph_num(p[2], u32::MAX as u64)?;
+    let icv = unhex(p[3]);
+    let first = if stale == "-" { icv.clone() } else { unhex(stale) };
+    let mut h = IpAuthHeader::new(IpNumber(nh as u8), spi as u32, seq as u32, &first).ok()?;
+    if stale != "-" {
+        h.set_raw_icv(&icv).ok()?;
+    }
+    Some(Some(h))
+}
+fn iph_value(a: &[&str]) -> String {
+    let noval = "noval".to_string();
+    if a[0] == "4" {
+        let f = &a[1..];
+        let p = |i: usize, top: u64| iph_num(f[i], top);
+        let arr4 = |s: &str| -> Option<[u8; 4]> { unhex(s).try_into().ok() };
+        let (Some(src), Some(dst)) = (arr4(f[10]), arr4(f[11])) else {
+            return noval;
+        };
+        let (Some(dscp), Some(ecn), Some(tl), Some(id), Some(fo), Some(ttl), Some(pr), Some(ck), Some(last)) = (
+            p(0, 255),
+            p(1, 255),
+            p(2, 65535),
+            p(3, 65535),
+            p(6, 65535),
+            p(7, 255),
+            p(8, 255),
+            p(9, 65535),
+            p(17, 255),
+        ) else {
+            return noval;
+        };
+        let (Ok(dscp), Ok(ecn), Ok(fo), Ok(opts)) = (
+            IpDscp::try_new(dscp as u8),
+            IpEcn::try_new(ecn as u8),
+            IpFragOffset::try_new(fo as u16),
+            Ipv4Options::try_from(&unhex(f[12])[..]),
+        ) else {
+            return noval;
+        };
+        let Some(auth) = iph_auth_of(f[13], f[14]) else {
+            return noval;
+        };
+        let hd = Ipv4Header {
+            dscp,
+            ecn,
+            total_len: tl as u16,
+            identification: id as u16,
+            dont_fragment: f[4] == "1",
+            more_fragments: f[5] == "1",
+            fragment_offset: fo,
+            time_to_live: ttl as u8,
+            protocol: IpNumber(pr as u8),
+            header_checksum: ck as u16,
+            source: src,
+            destination: dst,
+            options: opts,
+        };
+        iph_value_line(
+            IpHeaders::Ipv4(hd, Ipv4Extensions { auth }),
+            &unhex(f[15]),
+            &unhex(f[16]),
+            last as u8,
+        )
+    } else {
+        let f = &a[1..];
+        let p = |i: usize, top: u64| iph_num(f[i], top);
+        let arr16 = |s: &str| -> Option<[u8; 16]> { unhex(s).try_into().ok() };
+        let (Some(src), Some(dst)) = (arr16(f[5]), arr16(f[6])) else {
+            return noval;
+        };
+        let (Some(tc), Some(fl), Some(pl), Some(nh), Some(hop), Some(last)) =
+            (p(0, 255), p(1, u32::MAX as u64), p(2, 65535), p(3, 255), p(4, 255), p(15, 255))
+        else {
+            return noval;
+        };
+        let Ok(fl) = Ipv6FlowLabel::try_new(fl as u32) else {
+            return noval;
+        };
+        let (Some(xhop), Some(xdst), Some(xrt), Some(xfd), Some(xfrag), Some(xauth)) = (
+            iph_raw_of(f[7]),
+            iph_raw_of(f[8]),
+            iph_raw_of(f[9]),
+            iph_raw_of(f[10]),
+            iph_frag_of(f[11]),
+            iph_auth_of(f[12], "-"),
+        ) else {
+            return noval;
+        };
+        if xrt.is_none() && xfd.is_some() {
+            return noval;
+        }
+        let hd = Ipv6Header {
+            traffic_class: tc as u8,
+            flow_label: fl,
+            payload_length: pl as u16,
+            next_header: IpNumber(nh as u8),
+            hop_limit: hop as u8,
+            source: src,
+            destination: dst,
+        };
+        let e = Ipv6Extensions {
+            hop_by_hop_options: xhop,
+            destination_options: xdst,
+            routing: xrt.map(|r| Ipv6RoutingExtensions {
+                routing: r,
+                final_destination_options: xfd,
+            }),
+            fragment: xfrag,
+            auth: xauth,
+        };
+        iph_value_line(IpHeaders::Ipv6(hd, e), &unhex(f[13]), &unhex(f[14]), last as u8)
+    }
+}
+fn run_iph(parts: &[&str]) -> Option<String> {
+    match (parts[0], parts[1]) {
+        ("v", "iph") => Some(iph_value(&parts[2..])),
+        ("b", "iph") => Some(iph_bytes(&unhex(parts[2]))),
+        _ => None,
+    }
+}
+// ---- end extend-c08c ----
+
 fn run(line: &str) -> String {
     let parts: Vec<&str> = line.split_whitespace().collect();
     if let Some(r) = run_linknet(&parts) {
         return r; // extend-c08a hook
+    }
+    if let Some(r) = run_iph(&parts) {
+        return r; // extend-c08c hook
     }
     match (parts[0], parts[1]) {
         ("v", "tcp") => tcp_value(&parts[2..]),
